@@ -25,7 +25,7 @@ BOUND = ("boundary-free hat basis on [0,1]^d; (A) reuse on/off: real SpatiallyAd
          "[1,330] incl. N in {195,196,200,210,216}: the real functions with the constant 200 replaced by 0 resp. 10**9 and the "
          "unmodified functions, on the same grid, data and surpluses, 8..30 evaluation points incl. grid points, grid lines, domain boundary")
 RULE = BOUND + "; one case = one (history, data, configuration) pair of runs, or one (grid, data, surpluses) for the size paths; all cases non-trivial"
-BUDGET = {"quick": 60.0, "thorough": 840.0}
+BUDGET = {"quick": 45.0, "thorough": 840.0}
 
 CLAUSES = {
     "B.reuse.scheme": "after every evaluation round the combination scheme (level vectors, coefficients) with reuse on == reuse off",
